@@ -13,7 +13,7 @@ import (
 
 func init() {
 	register(&Prop{ID: "C05", Run: runC05, MinNontrivial: 500,
-		Rule:        "cases = IdP-signed (or skip-config) responses with 1-3 assertions whose time bounds sit at chosen distances (-1s,-1ns,0,+1ns,+1s and far) from the SP's fake clock; a focus bound (subject-confirmation NotOnOrAfter of assertion i, Conditions NotBefore / NotOnOrAfter of assertion 0) is probed at all five positions while the other bounds are drawn around it incl. equalities; bounds rendered with Z / +00:00 / +05:30 / -08:00 offsets and 0/1/3/6/9 fractional digits; missing, empty and malformed bounds; oracle: Expired error iff some now >= sc[i], InvalidTime iff now < NotBefore or now >= NotOnOrAfter of assertion 0, typed rejection for missing/unparsable; non-trivial = signature processing passed and the time logic decided the outcome; distinct by (focus, delta, layout of bounds); bounds on the wrong side of the clock incl. the zero instant 0001-01-01T00:00:00Z and the Unix epoch; hour-24, second-60, month-13 and negative-year forms among the malformed ones; NotBefore on the bearer confirmation data; bounds with 10-33 fractional digits; first assertion without AttributeStatement; VerifyAssertionConditions on the returned assertion after the clock moved across each bound; SessionNotOnOrAfter before / after the clock",
+		Rule:        "cases = IdP-signed (or skip-config) responses with 1-3 assertions whose time bounds sit at chosen distances (-1s,-1ns,0,+1ns,+1s and far) from the SP's fake clock; a focus bound (subject-confirmation NotOnOrAfter of assertion i, Conditions NotBefore / NotOnOrAfter of assertion 0) is probed at all five positions while the other bounds are drawn around it incl. equalities; bounds rendered with Z / +00:00 / +05:30 / -08:00 offsets and 0/1/3/6/9 fractional digits; missing, empty and malformed bounds; oracle: Expired error iff some now >= sc[i], InvalidTime iff now < NotBefore or now >= NotOnOrAfter of assertion 0, typed rejection for missing/unparsable; non-trivial = signature processing passed and the time logic decided the outcome; distinct by (focus, delta, layout of bounds); bounds on the wrong side of the clock incl. the zero instant 0001-01-01T00:00:00Z and the Unix epoch; hour-24, second-60, month-13 and negative-year forms among the malformed ones; NotBefore on the bearer confirmation data; bounds with 10-33 fractional digits; first assertion without AttributeStatement; VerifyAssertionConditions on the returned assertion after the clock moved across each bound; SessionNotOnOrAfter before / after the clock; malformed bounds that are a complete RFC 3339 instant with a suffix or prefix (zone names in brackets, blanks, designators), basic / ordinal / minute-precision ISO 8601 forms",
 		Assumptions: []string{"instants are compared as time.Time built from the record, never from the string", "wall time is decades away from every window, so a consultation of wall time changes the outcome"}})
 }
 
@@ -81,7 +81,13 @@ func c05Bound(r *rand.Rand, now time.Time, delta time.Duration, kind string) c05
 		t := now.Add(delta)
 		return c05bound{kind: kind, text: sim.S(pick(r, []string{t.Format("2006-01-02"), t.Format("2006-01-02T15:04:05"), "yesterday", t.Format("02/01/2006 15:04"), t.Format("2006-01-02 15:04:05Z"), "0", t.Format("2006-01-02T15:04:05") + "+0530", "T", t.Format(time.RFC1123),
 			// calendar forms other datatypes allow but RFC 3339 does not
-			t.Format("2006-01-02") + "T24:00:00Z", t.Format("2006-01-02") + "T24:00:00.750Z", t.Format("2006-01-02") + "T24:00:00+02:00", t.Format("2006-01-02") + "T23:59:60Z", t.Format("2006") + "-13-01T00:00:00Z", "-" + t.Format("2006-01-02T15:04:05Z")}))}
+			t.Format("2006-01-02") + "T24:00:00Z", t.Format("2006-01-02") + "T24:00:00.750Z", t.Format("2006-01-02") + "T24:00:00+02:00", t.Format("2006-01-02") + "T23:59:60Z", t.Format("2006") + "-13-01T00:00:00Z", "-" + t.Format("2006-01-02T15:04:05Z"),
+			// a complete RFC 3339 instant with something around it (zone-name suffixes as Java's ZonedDateTime prints them,
+			// blanks, a second designator, an ISO interval), and ISO 8601 forms RFC 3339 leaves out
+			t.UTC().Format(time.RFC3339) + "[UTC]", t.Format(time.RFC3339Nano) + "[Europe/Paris]", t.UTC().Format(time.RFC3339) + "[America/New_York]", t.UTC().Format(time.RFC3339) + "[]",
+			t.UTC().Format(time.RFC3339) + " ", " " + t.UTC().Format(time.RFC3339), t.UTC().Format(time.RFC3339) + "\n", t.UTC().Format(time.RFC3339) + "Z", t.UTC().Format(time.RFC3339) + " UTC",
+			t.UTC().Format(time.RFC3339) + "(UTC)", t.UTC().Format(time.RFC3339) + "/P1D", t.UTC().Format("2006-01-02T15:04:05") + " Z", t.UTC().Format("20060102T150405Z"),
+			t.UTC().Format("2006-002T15:04:05Z"), t.UTC().Format("2006-01-02T15:04Z"), t.UTC().Format(time.RFC3339) + "#", "[" + t.UTC().Format(time.RFC3339) + "]"}))}
 	}
 	t := now.Add(delta)
 	return c05bound{kind: "ok", t: t, text: sim.S(renderInstant(r, t))}
@@ -269,6 +275,9 @@ func runC05(c *mon.Ctx) {
 			wantWarn = now.Before(nb.t) || !now.Before(nooa.t)
 		}
 
+		if r.IntN(8) == 0 {
+			cs.Note("before validating: %s", OtherUse(r, sp))
+		}
 		pv, stack := mon.Guard(func() {
 			resp, verr := sp.ValidateEncodedResponse(enc)
 			ai, aerr := sp.RetrieveAssertionInfo(enc)
